@@ -4,11 +4,14 @@ INIT Init
 NEXT Next
 CONSTANTS
   MaxItems = 3
+  MinT = 1
   MaxT = 4
   MaxR = 2
   Kinds <- AllKinds
   MaxCtx = 3
 INVARIANT IdsStay
+INVARIANT OneEntryPerUtterance
+INVARIANT EmptyUtterancesStay
 INVARIANT CutIsLossless
 INVARIANT PaddingIsPad
 INVARIANT OptionalParts
